@@ -509,9 +509,11 @@ def plan (s : Sess) (r : Req) (h : Hint) : List Act × HRes :=
     | .unload => ([.respond true], .ok)
     | .inProgress =>
       let pre : List Act := [.enq [.ev .continued], .respond true, .drain]
+      -- when the failing call found the debuggee gone (observed: `dbgAfter = exited`), the library has marked it exited
+      let gone : List Act := if h.dbgAfter == .exited then [.setDbg .exited] else []
       match h.outcome with
-      | .none => (pre ++ manualStop "exception" h, .ok)
-      | _ => (pre ++ emitStop h, .ok)
+      | .none => (pre ++ manualStop "exception" h ++ gone, .ok)
+      | _ => (pre ++ emitStop h ++ gone, .ok)
   | .restart =>
     if s.mode != .launch then ([.respond false], .ok)
     else if dbg == .none then ([], .err)
